@@ -105,6 +105,11 @@ def step (st : St) (j : Json) : Except String (St × Json × List Fired) := do
     | "r2" => do
       let mid ← jnat j "mid"
       let (g', e) := submitR2 g mid senderOk (← jnat j "sharesLen")
+      -- a submission that reached the handler although one of its shares is not a 48-byte ciphertext: the recipient cannot
+      -- decrypt it, complains, and `VerifyComplaint` fails at decryption — the honest recipient is the one marked malicious
+      let mal := (jnatList j "malformedSlots").toOption.getD []
+      if ierr == "" && !mal.isEmpty then
+        fired := fired ++ [{ name := "round2_accepted_with_malformed_share", detail := mkObj [("member", jn mid), ("slots", jl (mal.map jn))] }]
       if e == .ok then
         let truth ← (← jarr j "truthShares").mapM fun t => match t with
           | .arr #[r, _, sh] => do pure (mid, (← asNat r), sca (← asStr sh))
